@@ -125,4 +125,14 @@ def spenderIndex (pend : List Tx) : List ((TxId × Nat) × List TxId) :=
 def pendingCredits (e : Env) (pend : List Tx) : List (TxId × Nat × Nat) :=
   pend.flatMap (fun t => (t.outs.zipIdx).filterMap (fun (o, i) => if ownedOut e o then some (t.id, i, o.amt) else none))
 
+/-- the unconfirmed deposits: staking / binding outputs of pending transactions paying an owned address
+    (wallet, output, index in its transaction, the transaction) -/
+def pendingDeposits (e : Env) (pend : List Tx) : List (Wid × Out × Nat × Tx) :=
+  pend.flatMap (fun t => (t.outs.zipIdx).filterMap (fun (o, i) =>
+    if o.cls.isStaking || o.cls.isBinding then
+      match AMap.get e.own o.addr with
+      | some (w, _) => some (w, o, i, t)
+      | none => none
+    else none))
+
 end MW.Spec.Pending
